@@ -74,6 +74,7 @@ PROPS = {
         "units": [
             regress("C04"),
             {"run": "^TestC04$", "quick": 15000, "thorough": 150000},
+            {"run": "^TestC04Edit$", "quick": 5000, "thorough": 50000},
         ],
     },
     "C05": {
